@@ -41,18 +41,18 @@ func keyKind(name string) string {
 
 // scenario: who issued, who signs, what is embedded.
 type scenario struct {
-	ID        string
-	Kind      string // issuer | deleg | deleg-otherCA | deleg-notembedded | deleg-wrongkey
-	IssuerKey string
-	SignKey   string // fixture name of the key that signs the response
-	Issuer    *fx.Cert
-	IssRef    *issuerRef
-	Responder *fx.Cert // responderCert argument (names the responder)
-	Embed     *fx.Cert // template.Certificate, nil = none
-	RespSubject []byte // DER subject of Responder, read with the standard library
-	Positive  bool     // the response really is authorised by Issuer
-	MustAcc   bool     // Positive and every algorithm involved is RSA/ECDSA
-	FaultSet  bool     // member of the quick fault-injection subset
+	ID          string
+	Kind        string // issuer | deleg | deleg-otherCA | deleg-notembedded | deleg-wrongkey
+	IssuerKey   string
+	SignKey     string // fixture name of the key that signs the response
+	Issuer      *fx.Cert
+	IssRef      *issuerRef
+	Responder   *fx.Cert // responderCert argument (names the responder)
+	Embed       *fx.Cert // template.Certificate, nil = none
+	RespSubject []byte   // DER subject of Responder, read with the standard library
+	Positive    bool     // the response really is authorised by Issuer
+	MustAcc     bool     // Positive and every algorithm involved is RSA/ECDSA
+	FaultSet    bool     // member of the quick fault-injection subset
 }
 
 var issuerKeys = []string{"rsa2048", "p256", "p384", "ed-issuer"}
